@@ -30,6 +30,12 @@ HOSTILE = ['"', "'", "\\", "\\\\", "\\n", "\n", "\r\n", "\t", "é", "中", "\U00
            # percent escapes, singly and doubly encoded (a file name is text: nothing decodes it)
            "%20", "%2520", "%252F", "%25", "%2", "%zz", "+"] + ENDTAGS
 PLACEHOLDER = "<!--DEPS-PLACEHOLDER-->"
+# JSON islands of other tools in the surrounding text: they are not serialised dependencies (the serialised form is the one
+# documented frame) and stay where they are
+OTHER_ISLANDS = ['<script type="application/json" data-html-dependency="false">{"widget": [1, 2, 3]}</script>',
+                 '<script type="application/json" data-for="w1">{"x": 1}</script>',
+                 '<script type="application/json" data-html-dependency-id="w2">{"name": "n", "version": "1"}</script>',
+                 '<script type="application/json" data-html-dependency="no">{"y": 2}</script>']
 
 
 def hs(rng, n=3):
@@ -125,6 +131,44 @@ def fields(dep):
 def hot(recipe):
     s = json.dumps(recipe)
     return any(x in s for x in ('\\"', "\\\\", "\\n", "\\r")) or "</script" in s.lower()
+
+
+def check_serialised_after_change(ctx, recipe, indent, rng):
+    """A dependency that was serialised once, then changed, then serialised again: what is recovered is the dependency as it is
+    now (and what a dependency built that way from the start serialises to)."""
+    wit = {"dep": recipe, "indent": indent, "scenario": "serialised, changed, serialised again"}
+    d, twin = gen.build(recipe), gen.build(recipe)
+    try:
+        serialise(d, indent)
+        if rng.random() < 0.5:
+            str(ht.div("x", d))
+    except ModeDependent:
+        return True   # (reported by the round-trip oracle)
+
+    def change(x):
+        x.script.append({"src": "added-later.js"})
+        x.all_files = not x.all_files
+        x.meta.append({"name": "later", "content": "c</script>"})
+        x.name = x.name + "-renamed"
+
+    change(d)
+    change(twin)
+    try:
+        s2, st = serialise(d, indent), serialise(twin, indent)
+        got = ht.HTMLTextDocument("<p>a</p>" + s2 + "<p>b</p>", deps_replace_pattern=PLACEHOLDER).render()["dependencies"]
+    except ModeDependent:
+        return True
+    except Exception as e:
+        ctx.violation("extraction-raises", "HTMLTextDocument raised %r" % e, wit)
+        return False
+    ctx.count("oracle.serialised_after_change")
+    if s2 != st:
+        ctx.violation("serialisation-stale-after-change", "a dependency changed after it was serialised once serialises differently from one built that way from the start", dict(wit, got=s2[:500], want=st[:500]))
+        return False
+    if len(got) != 1 or fields(got[0]) != fields(d):
+        ctx.violation("roundtrip-field-differs:after-change", "the dependency recovered from the second serialisation is not the dependency as it is now", dict(wit, got=[fields(g) for g in got][:2], want=fields(d)))
+        return False
+    return True
 
 
 # ------------------------------------------------------------------ 1. round trip
@@ -453,7 +497,7 @@ def run(ctx):
         n = rng.randint(1, 4)
         recipes = [rand_dep_recipe(rng, k) for k in range(n)]
         order = [rng.randrange(n) for _ in range(rng.randint(1, 5))]
-        pieces = ["<p>piece%d;%s</p>%s" % (k, rng.choice(["", "\n", "<script>var x = 1;</script>", " text & more ", "<!-- c -->", "<pre>\n\n\n\nkept</pre>", "\t \n"]),
+        pieces = ["<p>piece%d;%s</p>%s" % (k, rng.choice(["", "\n", "<script>var x = 1;</script>", " text & more ", "<!-- c -->", "<pre>\n\n\n\nkept</pre>", "\t \n"] + OTHER_ISLANDS),
                                          rng.choice(["", "", "\n", "\n\n", "\n\n\n", "\r\n\r\n\r\n", "  "])) for k in range(len(order) + 1)]
         if rng.random() < 0.3:
             pieces[rng.randrange(len(pieces))] = ""
@@ -478,6 +522,9 @@ def run(ctx):
             pieces = ["<p>w%d;</p>" % k for k in range(2)] + pieces
         ctx.guard(check_roundtrip, ctx, recipes, order, indent, pieces, witness={"deps": recipes, "order": order, "indent": indent, "pieces": pieces})
         ctx.case((recipes, order, indent, pieces), nontrivial=any(hot(r) for r in recipes))
+        if rng.random() < 0.25:
+            ind_ = indent[0] if isinstance(indent, list) else indent
+            ctx.guard(check_serialised_after_change, ctx, recipes[0], ind_, rng, witness={"dep": recipes[0], "indent": ind_, "scenario": "serialised, changed, serialised again"})
         ctx.state("copies_x_distinct", (len(order), len(set(order))))
     # sizes ordinary pages never reach: 70 dependencies serialised 200 times in a text of a few hundred thousand characters
     if ctx.shard == 0:
